@@ -155,6 +155,8 @@ class Run:
         self.swept = False
         self.body_runs: dict[int, int] = {}
         self.waiters: list = []
+        self.in_handler = 0
+        self.sd_tm = False
         self.atask_obs: list = []
         self._cm_last = None
         self.stats = {"added": 0, "claimed": 0, "timeout": 0, "dropped": 0, "keyerror": 0, "dup": 0, "inuse": 0,
@@ -177,6 +179,8 @@ class Run:
                 yield from op[1]
             if op[0] == "later":
                 yield op[3]
+            if op[0] == "ret" and len(op) > 4:
+                yield from op[4]
         for sp in self.specs.values():
             yield from sp.get("body") or []
 
@@ -239,7 +243,7 @@ class Run:
                 self.fail("RequestCache:identifier-without-outstanding-request",
                           f"at {self.now()} ms the table holds request {getattr(o, '_k', '?')} under {(p, n)} although "
                           f"no request is outstanding there (it can be handed to a late response)")
-            elif o is not None and not self.rc.is_pending_task_active(o):
+            elif o is not None and not self.sd_tm and not self.rc.is_pending_task_active(o):
                 self.swept = True
                 self.fail("RequestCache:outstanding-without-timer",
                           f"at {self.now()} ms request {exp} {(p, n)} is registered but has no live timeout task: it "
@@ -253,7 +257,7 @@ class Run:
         t = self.now()
         if t != self.last_t:
             for ident, k in list(self.outstanding.items()):
-                if max(self.deadlines.get(k, {t})) < t:
+                if not self.sd_tm and max(self.deadlines.get(k, {t})) < t:
                     self.fail("RequestCache._on_timeout:missing",
                               f"request {k} {ident} was registered with deadline {self.deadline[k]} ms and was neither "
                               f"claimed nor dropped, but at {t} ms its timeout has not fired")
@@ -292,7 +296,7 @@ class Run:
         t = self.now()
         ident = (self.specs[k]["p"], cache.number)
         hist = self.history.setdefault(k, [])
-        if self.sd:
+        if self.sd or self.sd_tm:
             self.fail("RequestCache._on_timeout:after-shutdown", f"on_timeout of request {k} ran at {t} ms, after shutdown")
         elif self.outstanding.get(ident) != k:
             last = hist[-1] if hist else "never registered"
@@ -465,7 +469,7 @@ class Run:
                               f"(no timeout task behind it)")
                 if self.in_fire == k:
                     self.stats["self_readd:raised"] = self.stats.get("self_readd:raised", 0) + 1
-                elif not self.sd and ident not in self.outstanding:
+                elif not (self.sd or self.sd_tm) and ident not in self.outstanding:
                     # free identity, not shut down, and not the cache whose own timeout task is still running: a
                     # request the cache refuses to track is never resolved (no claim, no timeout, futures never done)
                     self.fail("RequestCache.add:refused-free-identity",
@@ -473,7 +477,7 @@ class Run:
                               f"request is not tracked, it will neither be claimed nor time out")
                 self.emit(f"add {self.idx[k]}", "raised")
                 return
-            if self.sd:
+            if self.sd or self.sd_tm:
                 if r is not None:
                     self.fail("RequestCache.add:after-shutdown", f"add of request {k} succeeded after shutdown")
                 if any(not f.done() for f, _, _ in self.futs[k]):
@@ -494,7 +498,7 @@ class Run:
                     self.fail("RequestCache.add:refused-free-identity",
                               f"add of request {k} under the free identity {ident} returned None at {t} ms although "
                               f"the cache is not shut down: the request is not tracked")
-            if r is o and not self.sd:
+            if r is o and not (self.sd or self.sd_tm):
                 self.outstanding[ident] = k
                 self.deadline[k] = t + self.eff_delay(o)
                 # C10 does not say what an inner passthrough exit does to an outer block: the code resets everything
@@ -538,32 +542,65 @@ class Run:
             self.stats["api:" + kind + ":" + form] = self.stats.get("api:" + kind + ":" + form, 0) + 1
             if exp is not None:
                 self.observe_cancel(exp)
+            def account(o):
+                """bookkeeping + log line for the outcome of this claim attempt (o = the cache handed out, or None)"""
+                if o is not None:
+                    k = getattr(o, "_k", None)
+                    reply = f"claimed {self.name_of(o)}"
+                    if exp is None or self.objs.get(exp) is not o:
+                        last = (self.history.get(k) or ["never registered"])[-1]
+                        sub = {"timeout": "claimed-after-timeout", "claimed": "claimed-twice"}.get(last, "found-resolved")
+                        self.fail(f"RequestCache.pop:{sub}",
+                                  f"pop({PFX[p]!r}, {n}) at {t} ms returned request {k}, which was not outstanding "
+                                  f"(last: {last})")
+                    else:
+                        del self.outstanding[(p, n)]
+                    self.history.setdefault(k, []).append("claimed")
+                    self.stats["claimed"] += 1
+                else:
+                    reply = "keyerror"
+                    self.stats["keyerror"] += 1
+                    if exp is not None:
+                        self.fail("RequestCache.pop:outstanding-not-found",
+                                  f"pop({PFX[p]!r}, {n}) at {t} ms raised KeyError although request {exp} is outstanding")
+                        del self.outstanding[(p, n)]
+                self.emit(f"pop {p} {enc(n)}", reply)
+
+            if kind == "pop":
+                try:
+                    account(self.rc.pop(self.named(p) if form == "cls" else PFX[p], n))
+                except KeyError:
+                    account(None)
+                return
+            # retrieve_cache: the request is CLAIMED at the moment its handler receives it — whatever the handler then
+            # does (look the identity up, register a follow-up under the same identity, raise) happens after the claim
+            body = op[4] if len(op) > 4 else []
+            entered = []
+
+            def handler(o):
+                entered.append(o)
+                account(o)
+                still = self.rc.get(PFX[p], n)
+                if still is o:
+                    self.fail("retrieve_cache:request-still-registered-in-handler",
+                              f"the response handler for {(p, n)} received request {getattr(o, '_k', '?')} at {t} ms "
+                              f"while it is still registered (it can be handed out again and can still time out)")
+                self.in_handler += 1
+                try:
+                    for sub in body:
+                        self.stats["handler_ops"] = self.stats.get("handler_ops", 0) + 1
+                        if sub[0] == "raise":
+                            self.stats["handler_raised"] = self.stats.get("handler_raised", 0) + 1
+                            raise Boom
+                        self.do_op(sub)
+                finally:
+                    self.in_handler -= 1
             try:
-                if kind == "pop":
-                    o = self.rc.pop(self.named(p) if form == "cls" else PFX[p], n)
-                else:
-                    o = self.retrieve(p, n, with_data=form in ("wd", "wd2"), decoy=form in ("2p", "wd2"))
-                    if o is None:
-                        raise KeyError
-                k = getattr(o, "_k", None)
-                reply = f"claimed {self.name_of(o)}"
-                if exp is None or self.objs.get(exp) is not o:
-                    last = (self.history.get(k) or ["never registered"])[-1]
-                    sub = {"timeout": "claimed-after-timeout", "claimed": "claimed-twice"}.get(last, "found-resolved")
-                    self.fail(f"RequestCache.pop:{sub}",
-                              f"pop({PFX[p]!r}, {n}) at {t} ms returned request {k}, which was not outstanding (last: {last})")
-                else:
-                    del self.outstanding[(p, n)]
-                self.history.setdefault(k, []).append("claimed")
-                self.stats["claimed"] += 1
-            except KeyError:
-                reply = "keyerror"
-                self.stats["keyerror"] += 1
-                if exp is not None:
-                    self.fail("RequestCache.pop:outstanding-not-found",
-                              f"pop({PFX[p]!r}, {n}) at {t} ms raised KeyError although request {exp} is outstanding")
-                    del self.outstanding[(p, n)]
-            self.emit(f"pop {p} {enc(n)}", reply)
+                self.retrieve(p, n, handler, with_data=form in ("wd", "wd2"), decoy=form in ("2p", "wd2"))
+            except Boom:
+                pass
+            if not entered:
+                account(None)
             return
         if kind == "get":
             p, n = op[1], op[2]
@@ -619,8 +656,11 @@ class Run:
             self.outstanding.clear()
             self.emit("clear", "done")
             return
-        if kind == "shutdown":
-            if self.in_fire is not None:
+        if kind in ("shutdown", "tmshutdown"):
+            if self.in_fire is not None or self.in_handler:
+                return
+            if kind == "tmshutdown":
+                self.sd_tasks.append(self.loop.create_task(self._tm_sd()))
                 return
             self.sd_tasks.append(self.loop.create_task(self._sd()))
             return
@@ -676,10 +716,15 @@ class Run:
         """a cache class with a `name` attribute: the class form of has/get/pop and of retrieve_cache"""
         return type("Named", (), {"name": PFX[p]})
 
-    def retrieve(self, p, n, with_data=False, decoy=False):
+    def retrieve(self, p, n, on_cache, with_data=False, decoy=False):
         from ipv8.lazy_community import retrieve_cache
-        got = []
         marker = self.named(p)
+
+        class Got:
+            @staticmethod
+            def append(cache):
+                on_cache(cache)
+        got = Got
 
         class Overlay:
             request_cache = self.rc
@@ -712,7 +757,22 @@ class Run:
             Overlay().on_message2(None, first, payload)
         else:
             Overlay().on_message(None, payload)
-        return got[0] if got else None
+
+    async def _tm_sd(self):
+        """the inherited TaskManager.shutdown_task_manager() on the request cache object (generic teardown glue): same
+        `_shutdown` flag, all timers cancelled; requests stay registered (claimable) until RequestCache.shutdown()"""
+        self.pre()
+        t = self.now()
+        if not (self.sd or self.sd_tm):
+            for kk in self.outstanding.values():
+                self.observe_cancel(kk)
+        self.sd_tm = True
+        self.stats["tm_shutdown"] = self.stats.get("tm_shutdown", 0) + 1
+        self.lazy.append((t, "tmshutdown", "done", None))
+        try:
+            await self.rc.shutdown_task_manager()
+        except Exception as e:
+            self.loop_errors.append(f"shutdown_task_manager() raised {type(e).__name__}: {e}")
 
     async def _sd(self, epilogue=False):
         self.pre()
@@ -884,6 +944,25 @@ def gen_random(rng, size: int) -> dict:
             return ["get", p, n]
         return [rng.choice(["fset", "fcancel"]), owner, rng.randrange(2)]
 
+    def handler_body(p, n):
+        """what a response handler wrapped by retrieve_cache does with the request it was handed"""
+        ops = []
+        r = rng.random()
+        if r < 0.5:
+            ops.append(["get", p, n, "str"])                    # must find nothing: the request is claimed
+        if rng.random() < 0.45:                                 # follow-up request under the same identity
+            k2 = 2000 + rng.randrange(10 ** 6)
+            while k2 in specs:
+                k2 += 1
+            specs[k2] = spec(p, n, rng.choice([125, 250, 500]), rng.choice([0, 1]), [rng.choice([0, 1, 2])], [])
+            ops.append(["mkadd", k2])
+        if rng.random() < 0.2:
+            q, m = rng.choice(idents)
+            ops.append(["pop", q, m, "str"])
+        if rng.random() < 0.3:
+            ops.append(["raise"])                               # the handler rejects the response / has a fault
+        return ops
+
     for k in range(nspecs):
         specs[k] = None
         new_spec(k, 0)
@@ -907,6 +986,8 @@ def gen_random(rng, size: int) -> dict:
             op = ["pop", p, n, rng.choice(["str", "str", "cls"])]
         elif r < 0.67:
             op = ["ret", p, n, rng.choice(["str", "wd", "2p", "wd2"])]
+            if rng.random() < 0.5:
+                op.append(handler_body(p, n))
         elif r < 0.70:
             op = ["get", p, n, rng.choice(["str", "cls"])]
         elif r < 0.73:
@@ -918,8 +999,10 @@ def gen_random(rng, size: int) -> dict:
             op = ["exit", rng.choice(["normal", "normal", "exc"])]
         elif r < 0.88:
             op = ["clear"]
-        elif r < 0.91:
+        elif r < 0.90:
             op = ["shutdown"]
+        elif r < 0.91:
+            op = ["tmshutdown"]
         elif r < 0.96:
             op = [rng.choice(["fset", "fcancel"]), k, rng.randrange(2)]
         else:
@@ -935,6 +1018,10 @@ def gen_random(rng, size: int) -> dict:
             if rng.random() < 0.5:
                 seq.append(["pop", sp["p"], sp["n"]])
             script.append([t, rng.choice([0, 1]), ["seq", seq]])
+    if rng.random() < 0.08:
+        t = rng.randrange(0, tmax // GRID + 1) * GRID
+        script.append([t, 0, ["tmshutdown"]])
+        script.append([t + rng.choice([0, GRID, 4 * GRID]), rng.choice([0, 2]), ["shutdown"]])
     script.sort(key=lambda e: e[0])
     end = rng.choice([tmax // 2, tmax, tmax + 2500, tmax + 2500])
     return {"family": "random", "specs": {str(k): v for k, v in specs.items()}, "script": script, "end": end,
@@ -971,6 +1058,10 @@ def gen_population(rng) -> dict:
             op = [rng.choice(["pop", "pop", "ret"]), p, n, "str"]
             if op[0] == "ret":
                 op[3] = rng.choice(["str", "2p", "wd2"])
+                if rng.random() < 0.4:
+                    k2 = 5000 + len(specs)
+                    specs[k2] = spec(p, n, 500, 0, [], [])
+                    op.append([["get", p, n, "str"], ["mkadd", k2]] + ([["raise"]] if rng.random() < 0.3 else []))
         elif r < 0.9:
             op = ["get", p, n, rng.choice(["str", "cls"])]
         elif r < 0.95:
